@@ -370,3 +370,49 @@ func WriteFail(rng *Rng) (string, Cfg) {
 	c.PeerRead = rng.Intn(2)
 	return "free-write-fail", c
 }
+
+// FreeUnreadInbound: the peer writes frames this endpoint never consumes (writer-only endpoint,
+// or frames sent only after the close began) while a large backlog is still on its way to a
+// slow / late reading peer: every accepted packet must arrive and the stream must end with
+// EOF, not with a reset.
+func FreeUnreadInbound(rng *Rng) (string, Cfg) {
+	c := base(rng, 0)
+	var g idGen
+	k := rng.Range(150, 300)
+	c.Ocap = 1000
+	c.Senders = [][]PktSpec{g.pkts(rng, k, []int{2000, 3000, 3000, 4000})}
+	c.Closers = []bool{true}
+	c.PeerRead = 3
+	c.Input = inputFrames(rng, rng.Range(2, 8), smallSizes)
+	c.HasReader = false // nobody ever reads what the peer sends
+	c.WaitInput = 1     // ... and the peer is silent while we close
+	c.SmallBuf = 1
+	return "free-unread-inbound", c
+}
+
+// FreeLateInput: the peer keeps sending frames into the closing connection.
+func FreeLateInput(rng *Rng) (string, Cfg) {
+	c := base(rng, 0)
+	var g idGen
+	c.Senders = [][]PktSpec{g.pkts(rng, rng.Range(0, 60), smallSizes)}
+	c.Closers = []bool{true}
+	c.PeerRead = rng.Intn(3)
+	c.Input = inputFrames(rng, rng.Range(2, 12), smallSizes)
+	c.LateInput = rng.Range(1, len(c.Input))
+	return "free-late-input", c
+}
+
+// FreeMidFrameTimeout: the read deadline (1 s) expires while a frame is only partly received;
+// the rest of that frame (which begins with a complete valid frame) arrives afterwards.
+func FreeMidFrameTimeout(rng *Rng) (string, Cfg) {
+	c := base(rng, 0)
+	var g idGen
+	c.Senders = [][]PktSpec{g.pkts(rng, rng.Range(0, 5), smallSizes)}
+	c.Closers = []bool{true}
+	c.ReadTimeout = 1
+	c.WaitInput = 1
+	c.Input = inputFrames(rng, rng.Range(0, 3), smallSizes)
+	c.Input = append(c.Input, InItem{6, 7000, rng.PickInt(0, 7, 100)})
+	c.CloseAfter = 0
+	return "free-midframe-timeout", c
+}
